@@ -170,7 +170,7 @@ func (g *Gen) buildProbe(kind string) (string, sdk.Msg) {
 			}
 			bo := &markettypes.MsgBuyDirect_Order{SellOrderId: o.Id, Quantity: FmtDec(q, p), BidPrice: coinP(mk.BankDenom, ask), DisableAutoRetire: o.DisableAutoRetire && g.R.Chance(0.5), RetirementJurisdiction: "US-WA", RetirementReason: "probe"}
 			ref, ok := refBuy(v, o, bo)
-			if !ok || !ref.InDomain {
+			if !ok {
 				continue
 			}
 			bo.MaxFeeAmount = coinP(mk.BankDenom, new(big.Int).Add(RatFloor(ref.BuyerFee), big.NewInt(10)))
